@@ -233,7 +233,7 @@ def step (ms : MState) (op : String) (args impl : List String) : MState × Pred 
   | _, _ =>
   if !ms.isOpen then fail "op on a closed file" else
   if ms.ro && !(["getlinkh", "get", "has", "count", "list", "valid", "drop", "idof", "dump", "dumpx", "xcheck", "xlinks", "countlink", "listlink",
-                 "haslink", "getlink", "dims", "gdim", "pget", "da_read1", "getf", "find", "validate", "hdump", "xfeat", "haslinkh", "fld"].contains op) then
+                 "haslink", "getlink", "dims", "gdim", "pget", "da_read1", "getf", "find", "validate", "hdump", "xfeat", "haslinkh", "fld", "xdim"].contains op) then
     -- a mutator in a read-only session: whatever it answers (an exception, or `false` for "there was nothing to remove"), the file
     -- stays as it is — the next dump is compared with the unchanged store
     (ms, .skip) else
@@ -513,7 +513,14 @@ def step (ms : MState) (op : String) (args impl : List String) : MState × Pred 
      | _, _ => (ms, .skip))
   | "haslink", _ => (ms, .skip)
   | "getlink", _ => (ms, .skip)
+  -- forceCreatedAt(t): any time is a time (0 and negative ones included) and stays what it was set to; forceUpdatedAt: not carried
+  | "fm_ent", [slot, "forcecreated", t] =>
+    (match slot? ms slot with
+     | some (some h) => ({ ms with store := s.setAttr h.obj "created_at" t }, .exact ["ok"])
+     | _ => (ms, .err "UninitializedEntity"))
+  | "fm_ent", _ => (ms, .skip)
   | "fld", _ => (ms, .skip)
+  | "xdim", _ => (ms, .skip)
   | "single", [field, holder, how, key] =>
     match slot? ms holder with
     | some (some h) =>
